@@ -296,6 +296,18 @@ let check_tokens (cfg : econfig) (ops : eop list) (tr : tok list) : unit =
           if has_ack && pre_failed && not (List.exists (function TUser (UFHook _, _, _, _, UOk) -> true | _ -> false) pre) then
             bad "C14" "the event of an entry into state %d was acknowledged although a call of the hook consumer failed before the hook was invoked (the hook is never invoked for this entry)" (zi (rs_code st))
         | _ -> ());
+       (* C14: "invoked at least once with that run (unless the run's data has been deleted in the meantime)": an event of the hook's
+          own state is acknowledged without the hook having been invoked only when the lookup found the run's data deleted — a run
+          whose deletion is merely REQUESTED still has its data *)
+       (match u, ev with
+        | EHook st, Some e when on "C14" && zi e.e_state = zi (rs_code st) && has_ack ->
+          let looked = List.find_opt (function TLookup (KLK, _, ROk, Some _) -> true | _ -> false) pre in
+          (match looked with
+           | Some (TLookup (_, _, _, Some r)) when r.r_obj <> ODeleted && not (List.exists (function TUser (UFHook _, _, _, _, _) -> true | _ -> false) pre) ->
+             bad "C14" "the event of run %d's entry into state %d was acknowledged without invoking the hook although the run's data has not been deleted (run state %d)"
+               (ni r.r_run) (zi (rs_code st)) (zi (rs_code r.r_state))
+           | _ -> ())
+        | _ -> ());
        (* C14: hooks only for their own state *)
        (match u, ev with
         | EHook st, Some e when on "C14" ->
@@ -319,6 +331,19 @@ let check_tokens (cfg : econfig) (ops : eop list) (tr : tok list) : unit =
               if n > 0 && c < n && auto_paused then bad "C13" "run %d paused at failure %d of %d" (ni view.r_run) c n;
               if n > 0 && c >= n && not auto_paused && not (List.exists (fun t -> match tok_res t with Some r -> failed r | None -> false) body) then
                 bad "C13" "run %d not paused at failure %d of %d" (ni view.r_run) c n;
+              if auto_paused then Hashtbl.replace fail_count k 0
+            | TTCreate (run, _, _, ((RErr | RErrAfter) as a)) as tk when (match u with EInserter _ -> true | _ -> false) ->
+              (* the timeout inserter: a failing TimeoutStore.Create is the error of its handler; it counts towards the timeout's
+                 own PauseAfterErrCount (the workflow default only where none is set) like a failing step function *)
+              ignore a;
+              let k = (inst, u, run, -1) in
+              let c = (try Hashtbl.find fail_count k with Not_found -> 0) + 1 in
+              Hashtbl.replace fail_count k c;
+              let auto_paused = List.exists (function TStore (_, r, _) -> r.r_state = RSPaused && r.r_run = run | _ -> false) body in
+              let others_failed = List.exists (fun t -> t != tk && (match tok_res t with Some r -> failed r | None -> false)) body in
+              if n = 0 && auto_paused then bad "C13" "run %d paused by the timeout inserter although no error count is configured" (ni run);
+              if n > 0 && c < n && auto_paused then bad "C13" "run %d paused at the inserter's failure %d of %d" (ni run) c n;
+              if n > 0 && c >= n && not auto_paused && not others_failed then bad "C13" "run %d not paused at the inserter's failure %d of %d" (ni run) c n;
               if auto_paused then Hashtbl.replace fail_count k 0
             | _ -> ()) body
         | ERetry when on "C13" ->
